@@ -560,10 +560,13 @@ def gen_fast(rnd):
         code += [0xED, 0xB0 if inc > 0 else 0xB8]
         bc = rnd.choice((1, 1, 2, 2, 3, 4, 5, 8, 17, 40))
         how = rnd.random()
-        if how < 0.55:               # the copy starts on, just before or just after the instruction's own bytes
+        if how < 0.45:               # the copy starts on, just before or just after the instruction's own bytes
             de = (at + rnd.randrange(-6, 8)) % 65536
-        elif how < 0.7:              # ... or arrives there with its last bytes
+        elif how < 0.6:              # ... or arrives there with its last bytes
             de = (at + rnd.randrange(0, 2) - inc * (bc - rnd.choice((0, 1, 1, 2)))) % 65536
+        elif how < 0.8:              # ... or crosses a ROM/RAM/64K edge on its way (upwards over 0xFFFF -> 0x0000, downwards into the ROM)
+            edge = rnd.choice((0x10000, 0x10000, 0x4000, 0x4000, 0x0000))
+            de = (edge - inc * rnd.randrange(0, bc + 1) - (1 if inc < 0 else 0) + rnd.choice((0, 0, 1, -1))) % 65536
         else:
             de = rnd.choice((0x9000, 0x5000, 0xFFFE, 0x3FFE, 0x0000, 0xF000))
         src = rnd.random()
@@ -623,6 +626,13 @@ def gen_fast(rnd):
     return kind, regs, [[a, v] for a, v in ov.items()], stop, (at if kind != 'djnz' else -1), ints
 
 
+def ov_byte(ov, a):
+    for x, v in ov:
+        if x == a:
+            return v
+    return BASE[a]
+
+
 def _mk(impl, cfg, regs, ov):
     from skoolkit import simutils
     cls = _classes()[impl]
@@ -678,7 +688,11 @@ def fast_case(kind, regs, ov, stop, at=-1, ints=0, mark=None):
         return None                       # a program that never reaches its stop address on any implementation
     own = 1 if at >= 0 and any(a in (at, (at + 1) % 65536) for a, v in obs[1]['wr']) else 0
     return {'kind': kind, 'r0': regs, 'ov0': ov, 'stop': stop, 'max': FAST_MAX, 'steps': steps, 'frame': FRAME48, 'ia': IA48,
-            'inv': 255, 'obs': obs, 'at': at, 'own': own, 'ints': ints}
+            'inv': 255, 'obs': obs, 'at': at, 'own': own, 'ints': ints,
+            # addresses the (first) block copy targets, as far as BC says (for vacuity guards)
+            'dest': ([] if at < 0 else
+                     [(regs[E] + 256 * regs[D] + k * (1 if ov_byte(ov, (at + 1) % 65536) == 0xB0 else -1)) % 65536
+                      for k in range(min(regs[C] + 256 * regs[B] or 65536, 64))])}
 
 
 def fast_cases(args):
